@@ -39,6 +39,9 @@ type Service struct {
 	DoneIn func(in *graphql.QueryInput)
 	// Effects counts executions of mutation root fields
 	Effects map[string]int
+	// Scribble: the service treats the variables map it is handed as its own and overwrites its (top-level) entries
+	// once it has answered — what the library's network queryer does with every upload it sends
+	Scribble bool
 }
 
 func copyVars(m map[string]interface{}) map[string]interface{} {
@@ -97,6 +100,11 @@ func (s *Service) Query(ctx context.Context, in *graphql.QueryInput, recv interf
 		s.mu.Unlock()
 	}
 	data, err := Exec(s.Schema, s.Store, doc, in.OperationName, in.Variables)
+	if s.Scribble {
+		for k := range in.Variables {
+			in.Variables[k] = nil
+		}
+	}
 	if err != nil {
 		return err
 	}
